@@ -39,8 +39,25 @@ func genHistory(t *rapid.T, withRemoval bool) *World {
 	removals, lateImports := 0, 0
 	var importing []*mwallet // accepted imports whose background scan has not been waited for
 	settle := func() {
-		// wait for background work; wallets whose import finished join the model
-		w.finishTasks(t)
+		// wait for background work; wallets whose import finished join the model. A rescan that meets a
+		// reorganisation the handler has not processed yet waits for it, so queued notifications are
+		// delivered in between (as the running service does concurrently).
+		for n := 0; w.taskPending(t); n++ {
+			if n > 6000 {
+				t.Fatalf("background task did not finish within 6000 worker steps although every queued notification was delivered\n  %s", w.journalTail(30))
+			}
+			w.record(hstep{Kind: "serve"})
+			ok, err := w.env.ServeWorker(20 * time.Second)
+			if err != nil {
+				t.Fatalf("HARNESS: worker: %v", err)
+			}
+			if !ok {
+				t.Fatalf("background task pending but the worker never asked for its next step\n  %s", w.journalTail(30))
+			}
+			if n%4 == 3 && len(w.env.Queue) > 0 {
+				w.actDeliver(t)
+			}
+		}
 		for _, m := range importing {
 			w.syncIssued(t, m)
 			w.wallets = append(w.wallets, m)
